@@ -28,6 +28,8 @@ Muts == {<<"none", "p1", 1, "">>}
    \cup {<<"cycle", "p2", 1, w>> : w \in {"1", "2", "3", "2x"}}
    \* a stage that names a task AND a pipeline is a task stage (the task wins): naming its own pipeline is harmless
    \cup {<<"both", "p4", 1, "">>}
+   \* `task:` naming something that is a pipeline, not a task (closing an inclusion cycle, or not)
+   \cup {<<"taskpipe", "p2", 1, w>> : w \in {"self", "other"}}
    \* a stage that refers to nothing at all (with and without a name of its own)
    \cup {<<"noref", "p4", 1, w>> : w \in {"named", "unnamed"}}
    \* depends_on naming a stage by its DEFAULT name (the task's / the included pipeline's name): well formed
@@ -45,6 +47,8 @@ Apply(m) ==
        [] k = "dup" -> upd("name", Base.pipes[p][1].name)
        [] k = "watcher" -> [Base EXCEPT !.wtask = "nosuch"]
        [] k = "both" -> [Base EXCEPT !.pipes["p4"][1].pipe = "p4"]
+       [] k = "taskpipe" -> (IF m[4] = "self" THEN [Base EXCEPT !.pipes["p2"] = Append(@, St("x", "p2", "", {}))]
+                                              ELSE [Base EXCEPT !.pipes["p2"] = Append(@, St("x", "p4", "", {}))])
        [] k = "noref" -> [Base EXCEPT !.pipes["p4"] = Append(@, St(IF m[4] = "named" THEN "z" ELSE "", "", "", {}))]
        [] k = "defdep" -> (IF m[4] = "task" THEN [Base EXCEPT !.pipes["p4"] = <<St("", "t1", "", {}), St("k", "t2", "", {"t1"})>>]
                                             ELSE [Base EXCEPT !.pipes["p4"] = <<St("", "", "p3", {}), St("k", "t2", "", {"p3"})>>])
